@@ -22,6 +22,14 @@ CHECKS = {
             "Every history up to the stated depth of the public mutators (exterior_mut, try_exterior_mut Ok/Err, interiors_mut, try_interiors_mut Ok/Err, interiors_push, map_coords_in_place, try_map_coords_in_place failing at every position; Rect::new/set_min/set_max incl. caught panics) from every Polygon::new over the alphabet is executed on the real value; ring closedness, Rect ordering and equality with the reference model are evaluated in every reachable state. Conversions are enumerated exhaustively on a 3x3 lattice.",
             "Bounds: 3-coordinate alphabet, ring length <= 6, <= 2 interiors, depth 2 from all 160 initial polygons and depth 3 from every 13th (quick); one more level in thorough. States carry their depth so the parallel BFS is deterministic (state counts of two runs are compared).",
             "DESIGN.md §4 C18"),
+    "C17": ("E2-stateright", "explicit-state search (stateright) whose state is the complete dump of the real PreparedGeometry; exhaustive unmerged histories; exhaustive pair enumeration with one prepared geometry reused",
+            "State = verif_state() dump (hook H1) of the real PreparedGeometry + result flag; transitions = real relate calls (6 modes: P.relate(g), g.relate(P), both prepared, clone-then-drop, P.relate(P)) x 12 partners replayed on a fresh object; invariants: result equals plain relate, dump equals the fresh dump. Because every transition is a self-loop on the complete state, depth-1 exploration covers all depths within the alphabet; histories up to depth 2/3 are nevertheless run unmerged, and every shape of the lattice families is prepared once and related to every other shape in both positions.",
+            "Trusted: the hook dumps every cached/interior-mutable field (edges incl. intersections and labels, nodes, flags, Rc counts). Equality is with plain relate; C01 ties plain relate to the exact matrix.",
+            "DESIGN.md §4 C17"),
+    "C20": ("E3-nondet", "exhaustive enumeration of owned nondeterminism: hash seeds until all n! iteration orders of probe maps occurred, all pool sizes 1..16, repeated calls and call histories; bit-exact output comparison",
+            "Every collection-producing function on a family of inputs with many equal-rank output members is run in fresh processes under an LD_PRELOAD getrandom seam for >= 64 hash seeds (extended until every iteration order of probe HashMaps up to size 4, thorough 5, has been produced), for RAYON_NUM_THREADS 1..16, three times per process and after a different call history; overlay of 19k- and 92k-segment inputs under every in-process pool size 1..16. All outputs must be bit-identical to the reference run.",
+            "NOT covered: thread interleavings inside rayon/i_overlay (third-party, std primitives, not instrumentable with loom/shuttle); one free-running schedule per configuration is observed. Configurations (seeds as far as map order is concerned, pool sizes, histories) are exhaustive as stated.",
+            "DESIGN.md §4 C20, §8"),
 }
 
 NOT_YET = "check not built yet in this round (planned: bounded exhaustive exploration, see DESIGN.md §4)"
